@@ -5,6 +5,7 @@
 #include <AIToolbox/Factored/Utils/BayesianNetwork.hpp>
 #include <AIToolbox/Factored/Bandit/Model.hpp>
 #include <AIToolbox/Factored/Bandit/FlattenedModel.hpp>
+#include <AIToolbox/Factored/MDP/CooperativeModel.hpp>
 #include <tuple>
 #include "vio.hpp"
 using namespace AIToolbox::Factored;
@@ -159,6 +160,39 @@ static bool matrixCase(const std::string & kind, vio::Cursor & c, vio::Out & o) 
         o << flat.getA();
         size_t n = c.nextSize();
         for (size_t i = 0; i < n; ++i) o << flat.sampleR(c.nextSize());
+        return true;
+    }
+
+    if (kind == "cmodel") {         // S A {parentSet}*|S| {matrix}*|S| rewards discount nq {s a}*
+        Factors S = readFactors(c), A = readFactors(c);
+        DDNGraph g(S, A);
+        for (size_t i = 0; i < S.size(); ++i) g.push(readParentSet(c));
+        DDN::TransitionMatrix T;
+        for (size_t i = 0; i < S.size(); ++i) {
+            size_t rows = c.nextSize(), cols = c.nextSize();
+            AIToolbox::Matrix2D m(rows, cols);
+            for (size_t r = 0; r < rows; ++r) for (size_t k = 0; k < cols; ++k) m(r, k) = c.nextDouble();
+            T.push_back(std::move(m));
+        }
+        FactoredMatrix2D rewards = readFM(c);
+        double discount = c.nextDouble();
+        MDP::CooperativeModel model(g, T, rewards, discount);
+        size_t nq = c.nextSize();
+        for (size_t q = 0; q < nq; ++q) {
+            State s = readFactors(c); Action a = readFactors(c);
+            auto [s1, r] = model.sampleSR(s, a);
+            o.list(s1); o << r << model.getTransitionProbability(s, a, s1);
+            auto [s1b, rews] = model.sampleSRs(s, a);
+            o.list(s1b); o << (size_t) rews.size();
+            for (long i = 0; i < rews.size(); ++i) o << (double) rews[i];
+            o << model.getTransitionProbability(s, a, s1b);
+            // out-parameter overloads on dirty buffers
+            State s1c(S.size(), 7); AIToolbox::Vector rc = AIToolbox::Vector::Constant(rewards.bases.size(), 99.0);
+            model.sampleSRs(s, a, &s1c, &rc);
+            o.list(s1c); o << (size_t) rc.size();
+            for (long i = 0; i < rc.size(); ++i) o << (double) rc[i];
+            o << model.getExpectedReward(s, a, s1c);
+        }
         return true;
     }
     if (kind == "fm") {             // op S A fm args -> resulting bases, flat values at every (s, a)
